@@ -31,4 +31,15 @@ theorem mtu_tag_eq : Quic.Generated.Frame.mtuTagConst = mtuTag := by decide
 theorem stream_bits_eq : Quic.Generated.Frame.streamBits = [8, 4, 2, 1, 48, 1] := by decide
 theorem sub_tags_eq : Quic.Generated.Frame.subTags = [2, 3, 18, 19, 22, 23, 28, 29] := by decide
 
+/-! expression shapes the model transcribes (a changed constant / comparison / field order makes
+    the regular expression of tools/extractors/frame.py fail and the item `false`) -/
+theorem ack_decode_shape : Quic.Generated.Frame.ackDecodeShape = true := by decide
+theorem ack_encode_shape : Quic.Generated.Frame.ackEncodeShape = true := by decide
+theorem stream_shape : Quic.Generated.Frame.streamDecodeShape = true := by decide
+theorem datagram_shape : Quic.Generated.Frame.datagramShape = true := by decide
+theorem connection_close_shape : Quic.Generated.Frame.connectionCloseShape = true := by decide
+theorem new_token_shape : Quic.Generated.Frame.newTokenShape = true := by decide
+theorem padding_shape : Quic.Generated.Frame.paddingShape = true := by decide
+theorem dc_tokens_shape : Quic.Generated.Frame.dcTokensShape = true := by decide
+
 end Quic.Proofs.Bridge.Frame
